@@ -90,7 +90,7 @@ type xCall struct {
 	litOffs int // offset of the msgid literal inside text (for the reference position)
 }
 
-var xStrings = []string{"hello", "it's", `say "hi"`, `back\slash`, "a b", "é中", "{brace}", "$", "x", "Save", "%d file", "%d files", "semi;colon", "q?"}
+var xStrings = []string{"hello", "it's", `say "hi"`, `back\slash`, "a b", "é中", "{brace}", "$", "x", "Save", "%d file", "%d files", "semi;colon", "q?", "Dear user,\rwelcome", "tab\there", "nl\nx"}
 
 func xLit(r *Rng, s string, attrDelim string) string {
 	// a literal for s that does not contain the attribute delimiter
@@ -103,7 +103,8 @@ func xLit(r *Rng, s string, attrDelim string) string {
 	if !strings.Contains(sq[1:len(sq)-1], attrDelim) && attrDelim != `'` {
 		cands = append(cands, sq)
 	}
-	if !strings.ContainsAny(s, "`\r") && !strings.Contains(s, attrDelim) {
+	if !strings.ContainsAny(s, "`\n\t") && !strings.Contains(s, attrDelim) {
+		// a raw string may contain a carriage return (CRLF-saved templates): the evaluator drops it
 		cands = append(cands, "`"+s+"`")
 	}
 	if len(cands) == 0 {
@@ -148,6 +149,9 @@ func genXCall(r *Rng, kws []xKw, delim string, depth int) xCall {
 		vals[i], args[i], lit[i] = s, xLit(r, s, delim), true
 		if args[i] == "`x`" {
 			vals[i] = "x"
+		}
+		if strings.HasPrefix(args[i], "`") {
+			vals[i] = strings.ReplaceAll(vals[i], "\r", "")
 		}
 	}
 	extract := nargs >= n
